@@ -58,6 +58,35 @@ def _model_values(model, z3, api):
             out[name] = str(val.as_long()) if z3.is_int_value(val) else str(val)
         else:
             out[name] = "True" if z3.is_true(val) else "False"
+    # interpretations of the uninterpreted functions the harness declared (finite table + else)
+    def num(v):
+        if z3.is_rational_value(v):
+            return f"{v.numerator_as_long()}/{v.denominator_as_long()}"
+        if z3.is_int_value(v):
+            return str(v.as_long())
+        if z3.is_algebraic_value(v):
+            fr = v.approx(30).as_fraction()
+            return f"{fr.numerator}/{fr.denominator}"
+        return None
+    for name in api.ST.ufs:
+        for d in model.decls():
+            if d.name() == name and d.arity() > 0:
+                fi = model[d]
+                try:
+                    entries = []
+                    for k in range(fi.num_entries()):
+                        e = fi.entry(k)
+                        args = [num(e.arg_value(j)) for j in range(e.num_args())]
+                        val = num(e.value())
+                        if val is None or any(a is None for a in args):
+                            raise ValueError
+                        entries.append([args, val])
+                    els = num(fi.else_value())
+                    if els is None:
+                        raise ValueError
+                    out["uf:" + name] = dict(entries=entries, els=els)
+                except Exception:  # noqa: BLE001  (non-constant else branch etc.: fall back to the generic function)
+                    pass
     return out
 
 
